@@ -66,6 +66,8 @@ def gen_items(rng, cls, kind, budget):
                 items.append(('sb', bytes((IAC, SB)) + body + bytes((IAC, SE))))
         if cls == 'differential' and kind == 'telnet' and rng.random() < 0.5:
             items.append(('odd', rng.choice((b'\r', b'\n', b'\0', b'\xe9', bytes((IAC, IAC)), b'\rX', b'\t', b'\x1b[A'))))
+        if cls in ('strict', 'burst') and rng.random() < 0.04:
+            items.append(('text', b'PIBOOM')); net += 6          # process_input() raises an error on this line; the lines behind it are lines all the same
         if kind == 'telnet':
             items.append(('nl', rng.choice((b'\r\n', b'\r\n', b'\r\0'))))
         elif kind == 'ascii':
